@@ -173,6 +173,32 @@ Theorem C19_history_no_internal_error : forall total ops o e,
 Proof. exact history_no_internal_error'. Qed.
 Print Assumptions C19_history_no_internal_error.
 
+(* round 5: the hypothesis `the next operation ends in an error` is satisfiable — each of the four kinds of errors the
+   modelled driver CAN raise occurs after a real history (known name without force, unknown name, not enough memory,
+   fragmentation) *)
+Theorem C19_history_no_internal_error_nonvacuous :
+  snd (step_with find_place (run (clear 1000) [OUpload 1 [(11, 256)] false]) (OUpload 1 [(11, 256)] false)) = Some AlreadyKnown /\
+  snd (step_with find_place (run (clear 1000) [OUpload 1 [(11, 256)] false]) (ORemove 7)) = Some UnknownProgram /\
+  snd (step_with find_place (run (clear 1000) [OUpload 1 [(11, 256)] false]) (OUpload 2 [(12, 1024)] false))
+    = Some (Refused NotEnoughMemory) /\
+  snd (step_with find_place (run (clear 1000) [OUpload 1 [(11, 320)] false; OUpload 2 [(12, 192)] false; OFree 1])
+                 (OUpload 3 [(13, 336)] false)) = Some (Refused Fragmentation).
+Proof. exact no_internal_error_hyp_satisfiable. Qed.
+Print Assumptions C19_history_no_internal_error_nonvacuous.
+
+(* round 5: the decisions taken INSIDE a history ("driven through the decision function").  upload() calls the placement
+   on `mem_of d1`, d1 = the driver's own arrays before the call (after free_program for a forced re-upload — itself a
+   reachable state, ops ++ [OFree name]).  After every history total_capacity is the instrument's, and whatever the
+   placement decides on the arrays of that state satisfies the four clauses with respect to THOSE arrays (in particular
+   clause 3 with the slot CAPACITIES and 16 points of spacing per appended segment, which C19_history_capacity does not
+   count). *)
+Theorem C19_history_decisions : forall total ops nh nl dec,
+  let d := run (clear total) ops in
+  dv_total d = total /\
+  (find_place (mem_of d) nh nl = Ok dec -> decision_ok (mem_of d) nh nl dec).
+Proof. exact history_decisions. Qed.
+Print Assumptions C19_history_decisions.
+
 (* non-vacuity: a history with sharing, removal, slot re-use and a forced re-upload *)
 Theorem C19_history_nonvacuous :
   let d := run (clear 100000) ex_ops in
@@ -316,6 +342,14 @@ Proof.
   intros srt H. apply history_slots_hold_data_gen. intros mem nh nl d. apply find_place_nd_decision_ok. exact H.
 Qed.
 Print Assumptions C19_history_any_tie_order.
+
+(* round 5: the hypothesis `oracle_ok` is inhabited — by the stable sort, by a sort that breaks EVERY tie the other way
+   round (for all arrays, not only the example below), and by an oracle that alternates between the two from call to call *)
+Theorem C19_tie_order_oracles_exist :
+  oracle_ok (fun _ => argsort) /\ oracle_ok (fun _ => argsort_rev_ties) /\
+  oracle_ok (fun k => if Nat.even k then argsort else argsort_rev_ties).
+Proof. exact oracle_ok_inhabited. Qed.
+Print Assumptions C19_tie_order_oracles_exist.
 
 (* non-vacuity: two legal argsorts of [384; 384] that differ, and a layout on which the tie order decides WHICH of two
    free slots is overwritten (slot 2 with the stable sort, slot 1 with ties the other way round); both are safe *)
